@@ -346,6 +346,8 @@ def props_of(conj, sig, group):
         if conj == 'errpath':
             ps.add('C12')
         return ps
+    if conj == 'ondisk':
+        return {'C07', 'C01', 'C02'}
     if conj in ('class', 'value', 'effect', 'initmatch'):
         ps.add('C01')
         if kind == 'ovl':
